@@ -73,7 +73,7 @@ Section Tree.
                     (mk_pstate (s_dirs st)
                        [ps_dot_prec (ms_rec dt (ms_ext_at DB p) dl 2 [0]) 0 1 34;
                         ps_dot_prec (ms_rec dt (ms_ext_at DB (removelast p)) (ms_dlen_at t (removelast p)) 2 [1]) 1 1 68]
-                       (tl (s_queue st)) (s_inodes st) (s_e2i st) (ms_ext_at DB p :: s_seen st) 3 (s_lastbyte st)))].
+                       (tl (s_queue st)) (s_inodes st) (s_e2i st) (ps_blocks_of (ms_ext_at DB p) dl ++ s_seen st) 3 (s_lastbyte st)))].
   Proof. unfold ps_spec_dir. cbn [ps_end_dir s_dirs]. rewrite ps_spec_kids_dirs. reflexivity. Qed.
 
   Lemma ps_cache_len kids :
